@@ -254,24 +254,26 @@ Proof. exact dok_fancy_refuted_proof. Qed.
 Print Assumptions dok_fancy_refuted.
 
 (* (4') GCXS.__getitem__ = _compressed/indexing.getitem (Model/GcxsGetitem.v: normalisation, the
-   full-slice shortcut, get_single_element, the compressed / uncompressed bookkeeping, convert_to_flat,
-   the two selection kernels, the re-splitting `uncompressed // size`, shape and compressed-axes
-   bookkeeping), for every WELL-FORMED 2-d GCXS array (CSR: compressed_axes = [0]; CSC: [1]) and every
-   basic index without None (integers, slices with any start/stop/step, Ellipsis, fewer entries than
-   axes): the result has NumPy's shape, the same fill value and the dense meaning NumPy prescribes
-   (gcxs_getitem_den) and is again well-formed — sorted rows, consistent indptr, compressed_axes
-   dropped for a 1-d result (gcxs_getitem_wf); an all-integer index gives the element; NumPy's
-   IndexError cases raise IndexError.  In fact the result is GCXS.from_coo of the COO result
-   (Proofs/GcxsGetitem2dP.v).  Clauses (findings, refuted below): None in the index with no / one
-   surviving axis (D22, D27) or after an integer (D28), a 0-d array (D22); not covered by a proof:
-   ndim >= 3, None in the remaining positions, index arrays (D21), unsigned index dtypes. *)
-From Verif Require Import GCXS GcxsGetitem GcxsGetitem2dP.
-Theorem gcxs_getitem_den_2d_partial :
+   full-slice shortcut, get_single_element, the compressed / uncompressed bookkeeping, reordering by
+   _axis_order, convert_to_flat, the two selection kernels, the re-splitting `uncompressed // size`,
+   shape and compressed-axes bookkeeping), for every WELL-FORMED GCXS array of ANY ndim >= 2 with
+   strictly increasing compressed axes (check_compressed_axes enforces that in GCXS.__init__) and
+   every basic index without None (integers, slices with any start/stop/step, Ellipsis, fewer entries
+   than axes): the result has NumPy's shape, the same fill value and the dense meaning NumPy prescribes
+   (gcxs_getitem_den) and is again well-formed — sorted rows, consistent indptr, valid compressed axes,
+   none for a 1-d result (gcxs_getitem_wf); an all-integer index gives the element; NumPy's IndexError
+   cases raise IndexError.  In fact the result is GCXS.from_coo of the COO result with the compressed
+   axes the code computes (Proofs/GcxsGetitemNdP.v; ndim = 1 delegates to COO: coo_getitem_den).
+   Clauses (findings, refuted below): None in the index with no / one surviving axis (D22, D27) or after
+   an integer (D28), a 0-d array (D22); not covered by a proof: None in the remaining positions, index
+   arrays (D21 for several, unproved for one), unsigned index dtypes (gcxs_getitem_unsigned_indices). *)
+From Verif Require Import GCXS GcxsGetitem GcxsGetitem2dP GcxsGetitemNdP.
+Theorem gcxs_getitem_den_partial :
   forall (V : Type) (veqb : V -> V -> bool) (add : V -> V -> V) (kf : nat -> nat)
-         (g : gcxs V) (d0 d1 a : Z) (ix : index),
-    gcxs_wfb g = true -> g_shape g = [d0; d1] -> g_caxes g = [a] ->
+         (g : gcxs V) (ix : index),
+    gcxs_wfb g = true -> (2 <= length (g_shape g))%nat -> StronglySorted Z.lt (g_caxes g) ->
     no_zero_step ix = true -> basic ix = true -> no_new ix = true ->
-    match np_index [d0; d1] ix with
+    match np_index (g_shape g) ix with
     | Raise e => gcxs_getitem V veqb add kf g ix = Raise e /\ e = IndexError
     | Ok (sh', gsrc) =>
       match gcxs_getitem V veqb add kf g ix with
@@ -281,17 +283,17 @@ Theorem gcxs_getitem_den_2d_partial :
       | Raise _ => False
       end
     end.
-Proof. exact gcxs_getitem_den_2d_proof. Qed.
-Print Assumptions gcxs_getitem_den_2d_partial.
+Proof. exact gcxs_getitem_den_proof. Qed.
+Print Assumptions gcxs_getitem_den_partial.
 
-Theorem gcxs_getitem_wf_2d_partial :
+Theorem gcxs_getitem_wf_partial :
   forall (V : Type) (veqb : V -> V -> bool) (add : V -> V -> V) (kf : nat -> nat)
-         (g : gcxs V) (d0 d1 a : Z) (ix : index) (g' : gcxs V),
-    gcxs_wfb g = true -> g_shape g = [d0; d1] -> g_caxes g = [a] ->
+         (g : gcxs V) (ix : index) (g' : gcxs V),
+    gcxs_wfb g = true -> (2 <= length (g_shape g))%nat -> StronglySorted Z.lt (g_caxes g) ->
     no_zero_step ix = true -> basic ix = true -> no_new ix = true ->
     gcxs_getitem V veqb add kf g ix = Ok (GGArr g') -> gcxs_wfb g' = true.
-Proof. exact gcxs_getitem_wf_2d_proof. Qed.
-Print Assumptions gcxs_getitem_wf_2d_partial.
+Proof. exact gcxs_getitem_wf_proof. Qed.
+Print Assumptions gcxs_getitem_wf_partial.
 
 Theorem gcxs_getitem_d22_refuted :
   (let g := mkGCXS [] [] [3] [] [] 0 in
